@@ -4,7 +4,7 @@
 From Coq Require Import List String ZArith Bool.
 Import ListNotations.
 Open Scope string_scope.
-From CV Require Import Config.PassGroup Config.Shipped ClangDelta.Skeleton ClangDelta.SkeletonProofs.
+From CV Require Import Config.PassGroup Config.Shipped ClangDelta.Skeleton ClangDelta.SkeletonProofs ClangDelta.ArgParse.
 From CV Require Gen.ClangDelta.
 
 (* Soundness of the checker for EVERY behaviour of the opaque conditions (oracle nat -> bool):
@@ -73,6 +73,17 @@ Theorem C19_check_counter_validity_table :
   List.length Gen.ClangDelta.counter_validity_table = 8.
 Proof. vm_compute. split; reflexivity. Qed.
 
+(* the counter the transformation sees IS the number on the command line: --counter= / --to-counter= (blanks, sign,
+   digits, anything) are read as exactly the integer they denote when it fits an int and are refused otherwise, for every
+   argument - a counter beyond the int range can never come out as a small valid one *)
+Theorem C19_counter_argument_exact :
+  forall (ws : list N) (g : sign) (ds rest : list N),
+  all_ws ws = true -> all_digits ds = true -> ds <> [] -> no_digit_first rest = true ->
+  parse_counter (ws ++ sign_bytes g ++ ds ++ rest) =
+  let v := signed g (dec ds 0) in
+  if (int_min <=? v)%Z && (v <=? int_max)%Z then Some v else None.
+Proof. exact parse_counter_exact. Qed.
+
 (* each transformation name is registered once *)
 Theorem C19_registrations_nodup :
   nodup_str (map (fun r => fst (fst r)) Gen.ClangDelta.registrations) = true.
@@ -85,3 +96,8 @@ Example C19_checker_rejects :
   protocol_ok 0 (SSeq (SIf CQuery SReturn SSkip) (SEffect true)) = false /\
   protocol_ok 0 (SSeq (SIf CQuery SReturn SSkip) (SSeq (SIf CCounterGtValid (SSeq (SSetErr 0) SReturn) SSkip) (SEffect true))) = true.
 Proof. vm_compute. repeat split; reflexivity. Qed.
+
+(* non-vacuity: 2^32 + 1 is refused, 7 followed by garbage is 7 *)
+Example C19_counter_argument_example :
+  parse_counter [52;50;57;52;57;54;55;50;57;55]%N = None /\ parse_counter [32;55;120]%N = Some 7%Z.
+Proof. vm_compute. split; reflexivity. Qed.
